@@ -375,6 +375,27 @@ package resource
 //@   ensures [no-commit-on-failure] err != nil ==> (forall k int :: n0 <= k && k < cbcalls() ==> cbfn(k) != save)
 //@   ensures [unlocked] !held(mu)
 //@
+//@ // ---- subscribing: the snapshot a subscriber starts from is taken in the SAME critical section in which its listener is
+//@ // registered on the bus, so no commit can fall between the two (C03; interference mode) ----
+//@ property C03
+//@ func (*Value).onUpdate(ctx, config) (ch, value, changeTime)
+//@   mode INT
+//@   requires wfValue(recv) && config != nil && !isnil(ctx)
+//@   track Listen
+//@   ensures [atomic] !config.UpdatesOnly ==> calls(Listen) == old(calls(Listen)) + 1 && lastheld(Listen, recv.mu) && value == recv.value && changeTime == recv.changeTime
+//@   ensures [updates-only] config.UpdatesOnly ==> isnil(value) && calls(Listen) == old(calls(Listen)) + 1
+//@   ensures [unlocked] !held(recv.mu)
+//@
+//@ func (*Collection).onUpdate(ctx, config) (ch, res)
+//@   mode INT
+//@   requires wfColl(recv) && config != nil && !isnil(ctx)
+//@   track Listen
+//@   track itemSlice
+//@   ensures [atomic] !config.UpdatesOnly ==> calls(Listen) == old(calls(Listen)) + 1 && calls(itemSlice) == old(calls(itemSlice)) + 1 &&
+//@   |   lastheld(Listen, recv.mu) && lastheld(itemSlice, recv.mu) && lastgen(Listen, recv.mu) == lastgen(itemSlice, recv.mu)
+//@   ensures [updates-only] config.UpdatesOnly ==> isnil(res) && calls(Listen) == old(calls(Listen)) + 1
+//@   ensures [unlocked] !held(recv.mu)
+//@
 //@ // ---- Collection as an id -> message map: writes ----
 //@ property C01 C02 C05 C07
 //@ pure func sameEntries(c) = c.byId == old(c.byId) && (forall k string :: has(c.byId, k) == old(has(c.byId, k)) && c.byId[k] == old(c.byId[k]))
